@@ -104,6 +104,15 @@ func specialScalars() []*big.Int {
 	for _, k := range []uint{8, 16, 31, 32, 63, 64, 65, 126, 127, 128, 129, 192, 252} {
 		out = append(out, pow2(k), sub(pow2(k), 1), add(pow2(k), 1))
 	}
+	// values whose MONTGOMERY representation (the in-memory limbs) is structured: a single word,
+	// a word with the top bit set, two words, only a high word — "looks like a small integer" to
+	// any code that inspects raw limbs
+	rinv := new(big.Int).ModInverse(two256, rMod)
+	for _, m := range []*big.Int{big.NewInt(1), big.NewInt(2), big.NewInt(255), big.NewInt(256), big.NewInt(0x9e3779b9),
+		pow2(63), add(pow2(63), 12345), sub(pow2(64), 1), pow2(64), add(pow2(64), 7), sub(pow2(128), 1), pow2(128), add(pow2(192), 5)} {
+		v := new(big.Int).Mul(m, rinv)
+		out = append(out, v.Mod(v, rMod))
+	}
 	return out
 }
 
@@ -1108,6 +1117,21 @@ func genGrp(w *bufio.Writer, r *rng, thorough bool, id string) {
 			emit(w, "grp %s", lawProgram(r, true))
 		}
 		emit(w, "grp o;smul:0:%s;g;sub:2:2;smul:3:%s;flip:0;smul:5:%s", r.frHex(), r.frHex(), r.frHex())
+		// every special scalar (boundary values, powers of two, Montgomery-structured limbs)
+		// systematically, on a normalised and on a projective operand: s·P and (s·P − s·P)
+		sp := specialScalars()
+		for i := 0; i < len(sp); i += 6 {
+			prog := []string{fmt.Sprintf("c:%d", r.intn(256)), "dbl:0"}
+			end := i + 6
+			if end > len(sp) {
+				end = len(sp)
+			}
+			for _, s := range sp[i:end] {
+				h := be32(new(big.Int).Mod(s, rMod))
+				prog = append(prog, "smul:0:"+h, "smul:1:"+h)
+			}
+			emit(w, "grp %s", strings.Join(prog, ";"))
+		}
 	}
 }
 
@@ -1244,9 +1268,9 @@ func genC05(w *bufio.Writer, r *rng, thorough bool) {
 		emit(w, "commit x%s", strings.Join(items, ","))
 	}
 	// dense vectors of awkward lengths (not multiples of any plausible task count)
-	denseLens := []int{67, 131, 255}
+	denseLens := []int{64, 67, 100, 131, 160, 224, 255}
 	if thorough {
-		denseLens = []int{64, 65, 67, 97, 128, 131, 199, 250, 251, 253, 254, 255}
+		denseLens = []int{33, 63, 64, 65, 67, 96, 97, 128, 129, 131, 160, 192, 199, 223, 224, 225, 250, 251, 253, 254, 255}
 	}
 	for _, n := range denseLens {
 		var items []string
@@ -1560,6 +1584,28 @@ func genMp(w *bufio.Writer, r *rng, thorough bool, id string) {
 	emit(w, "mp %s r1@0;r2@0", labelHex("test"))
 	emit(w, "mp %s z@7", labelHex("test"))
 	emit(w, "mp %s m@255;m@0!p", labelHex("test"))
+	// every domain point opened in one proof (all 256 evaluation indices in use), in a scrambled
+	// order, with cheap-to-commit polynomials; the same with one point missing; and with repeats
+	{
+		var all, allBut, rep []string
+		for i := 0; i < 256; i++ {
+			z := (i*91 + 17) % 256
+			item := fmt.Sprintf("u%d@%d", (z*7+3)%256, z)
+			all = append(all, item)
+			if z != 200 {
+				allBut = append(allBut, item)
+			}
+			rep = append(rep, item)
+			if i%5 == 0 {
+				rep = append(rep, fmt.Sprintf("u%d@%d", (z*11+1)%256, z))
+			}
+		}
+		emit(w, "mp %s %s", labelHex("test"), strings.Join(all, ";"))
+		if thorough || id == "C01" {
+			emit(w, "mp %s %s", labelHex("test"), strings.Join(allBut, ";"))
+			emit(w, "mp %s %s", labelHex("test"), strings.Join(rep, ";"))
+		}
+	}
 	if id == "C03" {
 		// IPA proofs on their own
 		for i := 0; i < 4; i++ {
@@ -1569,12 +1615,18 @@ func genMp(w *bufio.Writer, r *rng, thorough bool, id string) {
 		for _, z := range []int64{0, 254, 255, 256} {
 			emit(w, "ipa %s r%d %s", labelHex("test"), 3+r.intn(1000), be32(big.NewInt(z)))
 		}
+		// evaluation points wider than one machine word whose low word looks like a domain index
+		for _, z := range []*big.Int{pow2(64), add(pow2(64), 5), add(pow2(64), 255), add(pow2(64), 256), add(pow2(128), 200),
+			add(pow2(192), 17), add(new(big.Int).Add(pow2(200), pow2(64)), 255)} {
+			emit(w, "ipa %s r%d %s", labelHex("test"), 3+r.intn(1000), be32(z))
+		}
 	}
 }
 
 func genC04(w *bufio.Writer, r *rng, thorough bool) {
 	pts := []*big.Int{big.NewInt(0), big.NewInt(1), big.NewInt(254), big.NewInt(255), big.NewInt(256), big.NewInt(257),
-		sub(pow2(64), 1), pow2(64), add(pow2(64), 1), sub(rMod, 1), sub(rMod, 256), pow2(8 * 31)}
+		sub(pow2(64), 1), pow2(64), add(pow2(64), 1), sub(rMod, 1), sub(rMod, 256), pow2(8 * 31),
+		add(pow2(64), 255), add(pow2(64), 256), add(pow2(128), 200), add(pow2(192), 17)}
 	rinv := new(big.Int).ModInverse(two256, rMod)
 	for _, m := range []*big.Int{big.NewInt(7), big.NewInt(255), big.NewInt(256), sub(pow2(64), 1), pow2(64)} {
 		v := new(big.Int).Mul(m, rinv) // Montgomery representation = m
